@@ -90,10 +90,20 @@ def main():
             res["demo_with_patch"] = "no-demo"
         # stock tests of touched packages
         if touched:
-            rc, out = sh("%s test -vet=off -count=1 %s" % (GO, " ".join("./" + t for t in touched)), cwd=wt, timeout=3000)
-            res["stock_touched_packages"] = "pass" if rc == 0 else "fail"
-            if rc != 0:
-                res["stock_touched_tail"] = out[-1500:]
+            # judged against the pinned baseline: only tests that are stable_pass there count
+            rc, out = sh("%s test -json -vet=off -count=1 %s" % (GO, " ".join("./" + t for t in touched)), cwd=wt, timeout=3000)
+            stable = set(json.load(open("/root/.vp/BASELINE.json"))["stable_pass"])
+            failed = []
+            for l in out.splitlines():
+                try:
+                    e = json.loads(l)
+                except Exception:
+                    continue
+                if e.get("Test") and e.get("Action") == "fail" and (e["Package"] + "::" + e["Test"]) in stable:
+                    failed.append(e["Package"].split("/")[-1] + "::" + e["Test"])
+            res["stock_touched_packages"] = "pass" if not failed else "fail"
+            if failed:
+                res["stock_touched_failed"] = failed[:20]
         if full:
             outj = "/tmp/try-%s.baseline.json" % name
             sh("cd %s && %s test -json -vet=off -count=1 -timeout 25m ./... > %s 2>/dev/null" % (wt, GO, outj), timeout=3000)
